@@ -367,6 +367,14 @@ class HttpBeaconClient:
             self.task_map[command_id] = []
         self.task_map[command_id].append(func)
 
+    def _request_url(self, uri: str) -> str:
+        """Return the URL to request for the (transformed) request `uri`."""
+        if uri.startswith("/"):
+            # urljoin() normalises the path (it drops an empty trailing ";" parameter part and resolves dot segments),
+            # data placed in the uri must reach the Team Server exactly as transformed.
+            return self.base_url + uri
+        return urllib.parse.urljoin(self.base_url, uri)
+
     def get_task(self) -> Optional[TaskPacket]:
         """Get a task from the Team Server."""
 
@@ -376,7 +384,7 @@ class HttpBeaconClient:
             request=self._initial_get_request(),
         )
 
-        url = urllib.parse.urljoin(self.base_url, req.uri.decode())
+        url = self._request_url(req.uri.decode())
         params = {k.decode(): v.decode() for k, v in req.params.items()}
         try:
             self.logger.debug("requesting : %r", req)
@@ -426,7 +434,7 @@ class HttpBeaconClient:
         )
 
         # Construct url for callback
-        url = urllib.parse.urljoin(self.base_url, req.uri.decode())
+        url = self._request_url(req.uri.decode())
         params = {k.decode(): v.decode() for k, v in req.params.items()}
         try:
             response = httpx.request(
